@@ -55,6 +55,8 @@ impl Time {
     /// println!("{}", time);
     /// ```
     pub fn now() -> Self {
+        #[cfg(feature = "verif")]
+        use crate::verif::SystemTime;
         let duration = SystemTime::now()
             .duration_since(UNIX_EPOCH)
             .expect("Time went backwards");
